@@ -1,5 +1,5 @@
 From Coq Require Import List NArith Bool.
-From LTV.C17 Require Import Model Proofs ProofsA ProofsB ProofsC ProofsD ProofsE ProofsF ProofsG ProofsH ProofsI ProofsJ ProofsK ProofsL ProofsM.
+From LTV.C17 Require Import Model Proofs ProofsA ProofsB ProofsC ProofsD ProofsE ProofsF ProofsG ProofsH ProofsI ProofsJ ProofsK ProofsL ProofsM ProofsN.
 Import ListNotations.
 
 (* Conventions: all theorems quantify over ALL client programs [progs], callback bodies [bds], id counts and
@@ -118,10 +118,12 @@ Theorem cancel_final_two_arg_refuted :
 Proof. exact ProofsB.cancel_final_two_arg_refuted. Qed.
 Print Assumptions cancel_final_two_arg_refuted.
 
-(* SELF_CANCEL_OK: a thread inside a callback of id i never waits for its own dispatch count *)
+(* SELF_CANCEL_OK: a thread inside a callback of id i never waits for its own dispatch count (entering the wait, or
+   blocked in it) *)
 Theorem self_cancel_ok : forall progs nids bds c t th i old rest,
   reachable (init progs nids bds) c -> crashed c = false ->
-  nth_error (threads c) t = Some th -> todo th = ICwWait i old :: rest -> proc th = Some i ->
+  nth_error (threads c) t = Some th -> todo th = ICwWait i old :: rest \/ (exists ep, todo th = ICwBlk i old ep :: rest) ->
+  proc th = Some i ->
   (2 <= cnt old)%N.
 Proof. exact ProofsE.self_cancel_ok. Qed.
 Print Assumptions self_cancel_ok.
@@ -270,6 +272,46 @@ Theorem setter_clears_flag : forall c t th i r w c',
   step c t = Some c' -> exists w', nth_error (ids c') i = Some w' /\ dl w' = false.
 Proof. exact ProofsL.setter_clears_flag. Qed.
 Print Assumptions setter_clears_flag.
+
+(* NOTIFY / WAIT DISCIPLINE of id->wait() (ALL programs, bodies, id counts, thread counts, schedules). In the model a thread
+   that entered id->wait(old) with the word equal to [old] is blocked (ICwBlk / IDlWBlk) and becomes enabled ONLY through a
+   notify_all() on the id issued after it blocked (Model.ntf), never through a changed word alone.
+   release_store_notifies: one step never lowers the in-progress count of an id or clears its 0x8 flag without also
+     notifying the id (ProofsN.ids_rel: notify count monotone; while it is unchanged the count does not drop and a set flag
+     stays set).
+   no_lost_wakeup_cancel_wait: a thread blocked in cancel_callback_and_wait(id) and not notified since still has the
+     count it waits for, and ANOTHER thread holds a unit of it (post in flight, or dispatch between fetch_add and
+     fetch_sub) - whose decrement notifies (release_store_notifies), which enables the waiter (notified_waiter_enabled).
+   no_lost_wakeup_handshake: a thread blocked in wait_for_deadlock and not notified since still sees the 0x8 flag, and the
+     flag's setter is another, ENABLED thread that clears it with a notify within two steps: two threads in the handshake
+     are never both blocked (this is mutual_cancel_no_deadlock for the blocked state). *)
+Theorem release_store_notifies : forall c t c', crashed c' = false -> ProofsC.cnt_inv c -> step c t = Some c' ->
+  forall i w', nth_error (ids c') i = Some w' -> exists w, nth_error (ids c) i = Some w /\
+    ntf w <= ntf w' /\ (ntf w' = ntf w -> (cnt w <= cnt w')%N /\ (dl w = true -> dl w' = true)).
+Proof. exact ProofsN.step_ids_rel. Qed.
+Print Assumptions release_store_notifies.
+Theorem no_lost_wakeup_cancel_wait : forall progs nids bds c t th i old ep rest w,
+  reachable (init progs nids bds) c -> crashed c = false ->
+  nth_error (threads c) t = Some th -> todo th = ICwBlk i old ep :: rest ->
+  nth_error (ids c) i = Some w -> ntf w = ep ->
+  (cnt old <= cnt w)%N /\
+  exists t2 th2, t2 <> t /\ nth_error (threads c) t2 = Some th2 /\ 1 <= ProofsC.hl i (todo th2).
+Proof. exact ProofsN.no_lost_wakeup_cancel_wait. Qed.
+Print Assumptions no_lost_wakeup_cancel_wait.
+Theorem notified_waiter_enabled : forall c t th i old ep rest w,
+  nth_error (threads c) t = Some th -> todo th = ICwBlk i old ep :: rest \/ todo th = IDlWBlk i old ep :: rest ->
+  nth_error (ids c) i = Some w -> ntf w <> ep -> enabled c t = true.
+Proof. exact ProofsN.notified_waiter_enabled. Qed.
+Print Assumptions notified_waiter_enabled.
+Theorem no_lost_wakeup_handshake : forall progs nids bds c t th i old ep rest w,
+  reachable (init progs nids bds) c -> crashed c = false ->
+  nth_error (threads c) t = Some th -> todo th = IDlWBlk i old ep :: rest ->
+  nth_error (ids c) i = Some w -> ntf w = ep ->
+  dl w = true /\
+  exists t2 th2 r2, t2 <> t /\ nth_error (threads c) t2 = Some th2 /\
+    (todo th2 = IDlAdd i :: IDlAnd i :: r2 \/ todo th2 = IDlAnd i :: r2) /\ enabled c t2 = true.
+Proof. exact ProofsN.no_lost_wakeup_handshake. Qed.
+Print Assumptions no_lost_wakeup_handshake.
 
 (* sanity instance of the above (finite, bound in the statement; kept as an Example-style check): from the reachable
    state in which both threads are inside a callback of the shared id and about to call
